@@ -3,6 +3,7 @@ package main
 // Canonical one-token text form of logical packets (shared with ocaml/drv_wire.ml) and packet generators.
 
 import (
+	"encoding/binary"
 	"encoding/hex"
 	"fmt"
 	"math/rand"
@@ -239,6 +240,16 @@ func genPacket(r *rand.Rand, kind string, flags uint32, big bool) *sftp.VerifPac
 		p.S1, p.S2 = genStr(r), genStr(r)
 	case "extother":
 		p.S1, p.Data = genStr(r)+"@example.com", genData(r, false)
+		if r.Intn(3) == 0 {
+			// a name that is NOT one of the extensions the package knows but spells almost like one (letter case, padding, a
+			// character more or less), with the payload the real extension would carry: still an unknown extension, byte for byte
+			base := []string{"hardlink@openssh.com", "posix-rename@openssh.com", "statvfs@openssh.com", "fsync@openssh.com"}[r.Intn(4)]
+			at := strings.IndexByte(base, '@')
+			p.S1 = []string{strings.ToUpper(base), strings.ToUpper(base[:1]) + base[1:], base[:at] + "@OpenSSH.com", base + " ", " " + base, base + "\x00",
+				base[:len(base)-1], base + "m", strings.ToUpper(base[:at]) + base[at:]}[r.Intn(9)]
+			a, b := genStr(r), genStr(r)
+			p.Data = append(append(binary.BigEndian.AppendUint32(nil, uint32(len(a))), a...), append(binary.BigEndian.AppendUint32(nil, uint32(len(b))), b...)...)
+		}
 	case "status":
 		p.N1, p.S1, p.S2 = uint64(genU32(r)), genStr(r), genStr(r)
 		if r.Intn(2) == 0 {
